@@ -297,6 +297,16 @@ func (d *Decision) evalVal(v ssa.Value, env Env, depth int) (int64, error) {
 			return truncTo(a-b, x.Type()), nil
 		case token.MUL:
 			return truncTo(a*b, x.Type()), nil
+		case token.QUO:
+			if b == 0 {
+				return 0, fmt.Errorf("division by zero in %s", d.P.Desc(v))
+			}
+			return a / b, nil
+		case token.REM:
+			if b == 0 {
+				return 0, fmt.Errorf("division by zero in %s", d.P.Desc(v))
+			}
+			return a % b, nil
 		case token.AND:
 			return a & b, nil
 		case token.OR:
